@@ -1,6 +1,48 @@
+"""leaf specs of C01: scalar arithmetic of rdm/calc.py, rdm/combine.py regenerated every run"""
+_TRIU = {'_extract_triu_(rdm)': 'triu'}
+
 LEAVES = [
     # calc_rdm_poisson:  measurements = (measurements + prior_lambda * prior_weight) / (1 + prior_weight)
     dict(name='poissonPrior', file='rdm/calc.py', func='calc_rdm_poisson', kind='assign',
          target='measurements', nth=0,
          params={'measurements': 'A', 'prior_lambda': 'A', 'prior_weight': 'A'}, ret='A'),
+    # calc_rdm_euclidean:  rdm = sum_sq + sum_sq.T - 2 * np.dot(measurements, measurements.T)
+    dict(name='euclidEntry', file='rdm/calc.py', func='calc_rdm_euclidean', kind='assign',
+         target='rdm', nth=0,
+         opaque={'np.dot(measurements, measurements.T)': 'gram'},
+         params={'sum_sq_measurements': 'A', 'sum_sq_measurements_T': 'A', 'gram': 'A'}, ret='A'),
+    # calc_rdm_euclidean:  rdm = _extract_triu_(rdm) / measurements.shape[1]
+    dict(name='euclidNorm', file='rdm/calc.py', func='calc_rdm_euclidean', kind='assign',
+         target='rdm', nth=1, opaque=_TRIU,
+         params={'triu': 'A', 'measurements_shape_1': 'Nat'}, ret='A'),
+    # calc_rdm_mahalanobis:  rdm = expand_dims(diag(kernel), 0) + expand_dims(diag(kernel), 1) - 2 * kernel
+    dict(name='mahalEntry', file='rdm/calc.py', func='calc_rdm_mahalanobis', kind='assign',
+         target='rdm', nth=0,
+         opaque={'np.expand_dims(np.diag(kernel), 0)': 'diag_col',
+                 'np.expand_dims(np.diag(kernel), 1)': 'diag_row'},
+         params={'diag_col': 'A', 'diag_row': 'A', 'kernel': 'A'}, ret='A'),
+    dict(name='mahalNorm', file='rdm/calc.py', func='calc_rdm_mahalanobis', kind='assign',
+         target='rdm', nth=1, opaque=_TRIU,
+         params={'triu': 'A', 'measurements_shape_1': 'Nat'}, ret='A'),
+    # calc_rdm_poisson:  rdm = expand_dims(diag, 0) + expand_dims(diag, 1) - kernel - kernel.T
+    dict(name='poissonEntry', file='rdm/calc.py', func='calc_rdm_poisson', kind='assign',
+         target='rdm', nth=0,
+         opaque={'np.expand_dims(np.diag(kernel), 0)': 'diag_col',
+                 'np.expand_dims(np.diag(kernel), 1)': 'diag_row'},
+         params={'diag_col': 'A', 'diag_row': 'A', 'kernel': 'A', 'kernel_T': 'A'}, ret='A'),
+    dict(name='poissonNorm', file='rdm/calc.py', func='calc_rdm_poisson', kind='assign',
+         target='rdm', nth=1, opaque=_TRIU,
+         params={'triu': 'A', 'measurements_shape_1': 'Nat'}, ret='A'),
+    # calc_rdm_correlation:  rdm = 1 - np.einsum('ik,jk', ma, ma)
+    dict(name='corrEntry', file='rdm/calc.py', func='calc_rdm_correlation', kind='assign',
+         target='rdm', nth=0, opaque={"np.einsum('ik,jk', ma, ma)": 'gram'},
+         params={'gram': 'A'}, ret='A'),
+    # _parse_input:  measurements = measurements - measurements.mean(axis=1, keepdims=True)
+    dict(name='removeMean', file='rdm/calc.py', func='_parse_input', kind='assign',
+         target='measurements', nth=1,
+         opaque={'measurements.mean(axis=1, keepdims=True)': 'row_mean'},
+         params={'measurements': 'A', 'row_mean': 'A'}, ret='A'),
+    # from_partials:  vector_len = int(n_patterns * (n_patterns-1) / 2)
+    dict(name='vectorLen', file='rdm/combine.py', func='from_partials', kind='assign',
+         target='vector_len', nth=0, params={'n_patterns': 'Nat'}, ret='Nat'),
 ]
